@@ -272,7 +272,20 @@ type cmap4Iter struct {
 }
 
 func (it *cmap4Iter) Next() bool {
-	return it.pos1 < len(it.data)
+	// skip the entries with a zero glyph index: Lookup reports no glyph for them
+	for it.pos1 < len(it.data) {
+		entry := it.data[it.pos1]
+		if entry.indexes == nil || entry.indexes[it.pos2] != 0 {
+			return true
+		}
+		if it.pos2 == len(entry.indexes)-1 {
+			it.pos2 = 0
+			it.pos1++
+		} else {
+			it.pos2++
+		}
+	}
+	return false
 }
 
 func (it *cmap4Iter) Char() (r rune, gy GID) {
@@ -662,15 +675,33 @@ func (cm cmap4) RuneRanges(dst [][2]rune) [][2]rune {
 	}
 	dst = dst[:0]
 	for _, e := range cm {
-		start, end := rune(e.start), rune(e.end)
-		if L := len(dst); L != 0 && dst[L-1][1] == start {
-			// grow the previous range
-			dst[L-1][1] = end
-		} else {
-			dst = append(dst, [2]rune{start, end})
+		if e.indexes == nil {
+			dst = appendRuneRange(dst, rune(e.start), rune(e.end))
+			continue
+		}
+		// the entries with a zero glyph index are not mapped (see Lookup):
+		// emit one range for each run of non zero entries
+		for i := 0; i < len(e.indexes); i++ {
+			if e.indexes[i] == 0 {
+				continue
+			}
+			first := i
+			for i+1 < len(e.indexes) && e.indexes[i+1] != 0 {
+				i++
+			}
+			dst = appendRuneRange(dst, rune(e.start)+rune(first), rune(e.start)+rune(i))
 		}
 	}
 	return dst
+}
+
+// appendRuneRange adds [start, end] to dst, growing the previous range when possible
+func appendRuneRange(dst [][2]rune, start, end rune) [][2]rune {
+	if L := len(dst); L != 0 && dst[L-1][1] == start {
+		dst[L-1][1] = end
+		return dst
+	}
+	return append(dst, [2]rune{start, end})
 }
 
 func (cm *cmap6or10) RuneRanges(dst [][2]rune) [][2]rune {
